@@ -33,9 +33,11 @@ func (core *JApiCore) processContext(d *directive.Directive, root *[]*directive.
 						d.String(),
 					))
 				}
-				*root = append(*root, d)
-				core.currentContextDirective = d
-				return nil
+				// The URL does not admit a method with its own path: keep
+				// looking in the enclosing contexts (the top level, or the
+				// MACRO the URL is written in).
+				core.currentContextDirective = core.currentContextDirective.Parent
+				continue
 			}
 
 			d.Parent = core.currentContextDirective
